@@ -50,7 +50,8 @@ def make_case_system(rng, kind, idx):
         s = gen_systems.herm_system(rng, num_wann=nw, radius=rng.uniform(1.0, 2.4), periodic=periodic,
                                     centers=["random", "outside", "zero"][int(rng.integers(3))],
                                     thin=rng.choice([0.0, 0.3]))
-        desc = dict(kind=kind, nw=nw, nR=s.rvec.nRvec, periodic=periodic)
+        s, hist = gen_systems.history_variant(rng, s, which=gen_systems.HISTORIES_NO_DISK[int(rng.integers(4))])   # state reached through the API first
+        desc = dict(kind=kind, history=hist, nw=nw, nR=s.rvec.nRvec, periodic=periodic)
         if kind == "phonon":
             if rng.random() < 0.5:
                 # mostly positive "dynamical matrix": shift the spectrum up (a few negative modes remain possible)
